@@ -149,28 +149,30 @@ Proof.
     apply (transform_in_domain opp adj Ho Ha t a a'); [exact (resolved_in_domain rules s d a Hd Hs) | exact Ht].
 Qed.
 
-(* totality does NOT hold: the resolved colour "default" (style "fg:default")
-   crashes AdjustBrightnessStyleTransformation with ValueError (int("ul", 16)) *)
+(* before the fix 65ab1ba totality did not hold: the resolved colour "default"
+   (style "fg:default") crashed AdjustBrightnessStyleTransformation with
+   ValueError (int("ul", 16)); the current function leaves it alone *)
 Definition const_kernel : kernel := fun _ => Some [48; 48; 48; 48; 48; 48].
-Theorem transform_total_refuted :
+Theorem adjust_pinned_refuted :
   exists rules s a,
     style_get rules s DEFAULT_ATTRS = Ok a /\
     kernel_ok const_kernel /\ kernel_total const_kernel /\
-    transform const_kernel const_kernel (TAdjust true false) a = Err 1.
+    adjust_brightness_pinned const_kernel true false a = Err 1 /\
+    adjust_brightness const_kernel true false a = Ok a.
 Proof.
   exists [], [102; 103; 58; 100; 101; 102; 97; 117; 108; 116]. eexists.
   split; [vm_compute; reflexivity|]. split.
   - intros c v H. inversion H. reflexivity.
-  - split; [intros c; eexists; reflexivity | vm_compute; reflexivity].
+  - split; [intros c; eexists; reflexivity|]. split; vm_compute; reflexivity.
 Qed.
 
-(* without AdjustBrightness (and with well-formed default colours) every
+(* with valid brightness bounds and well-formed default colours every
    transformation of an in-domain Attrs succeeds *)
 Fixpoint well_formed (t : transf) : bool :=
   match t with
   | TSetDefault fg bg =>
       match parse_color fg, parse_color bg with Some _, Some _ => true | _, _ => false end
-  | TAdjust _ _ => false
+  | TAdjust valid _ => valid
   | TCond _ t' => well_formed t'
   | TMerged l => (fix all (l : list transf) : bool :=
                     match l with [] => true | t' :: r => well_formed t' && all r end) l
@@ -190,10 +192,34 @@ Proof.
   - cbn [orb] in Hc. rewrite Hc. destruct (Ht s) as [v Hv]. rewrite Hv. eauto.
 Qed.
 
-Theorem transform_total : forall opp adj, kernel_ok opp -> kernel_total opp -> kernel_ok adj ->
+Lemma names_have_rgb :
+  forallb (fun n => match assoc n ansi_colors_to_rgb with Some _ => true | None => false end) ansi_color_names = true.
+Proof. vm_compute. reflexivity. Qed.
+
+Lemma adjust_total : forall adj identity a, kernel_total adj -> rt_dom a ->
+  exists a', adjust_brightness adj true identity a = Ok a'.
+Proof.
+  intros adj identity a Ht [Hc _]. unfold adjust_brightness. cbn [negb].
+  destruct identity; [eauto|].
+  match goal with |- context [if ?c then _ else _] => destruct c eqn:Econd end; [|eauto].
+  apply andb_prop in Econd. destruct Econd as [Hfg _].
+  destruct (a_color a) as [s|] eqn:Ea; [|discriminate].
+  apply andb_prop in Hfg. destruct Hfg as [Hfg Hnd]. apply andb_prop in Hfg. destruct Hfg as [Hnn Hna].
+  apply negb_true_iff in Hnn, Hnd.
+  destruct (assoc s ansi_colors_to_rgb) eqn:E1.
+  - destruct (Ht s) as [v Hv]. rewrite Hv. eauto.
+  - cbn [color_ok] in Hc. rewrite Hnn, Hnd in Hc. cbn [orb] in Hc.
+    destruct (mem_str s ansi_color_names) eqn:Em.
+    + exfalso. apply mem_str_In in Em.
+      pose proof (proj1 (forallb_forall _ _) names_have_rgb _ Em) as Y. cbv beta in Y.
+      rewrite E1 in Y. discriminate.
+    + cbn [orb] in Hc. rewrite Hc. destruct (Ht s) as [v Hv]. rewrite Hv. eauto.
+Qed.
+
+Theorem transform_total : forall opp adj, kernel_ok opp -> kernel_total opp -> kernel_ok adj -> kernel_total adj ->
   forall t a, well_formed t = true -> rt_dom a -> exists a', transform opp adj t a = Ok a'.
 Proof.
-  intros opp adj Hk Ht Hka. fix IH 1. intros t a Hw Hd.
+  intros opp adj Hk Ht Hka Hta. fix IH 1. intros t a Hw Hd.
   destruct t as [| |fg bg|valid identity| |f t'|l|o]; cbn [transform]; cbn [well_formed] in Hw.
   - destruct Hd as [Hc Hb]. destruct (opposite_total opp _ Ht Hc) as [c E1]. rewrite E1.
     cbn [a_bgcolor set_color]. destruct (opposite_total opp _ Ht Hb) as [b E2]. rewrite E2. eauto.
@@ -201,7 +227,7 @@ Proof.
   - unfold set_default_color. destruct (parse_color fg); [|discriminate]. destruct (parse_color bg); [|discriminate].
     destruct (is_empty_or_default (a_bgcolor a)); cbn [a_color set_bgcolor];
       destruct (is_empty_or_default (a_color a)); eauto.
-  - discriminate.
+  - subst valid. apply adjust_total; assumption.
   - eauto.
   - destruct f; [apply IH; assumption | eauto].
   - revert a Hd. induction l as [|t' r IHl]; intros a Hd; [eauto|].
